@@ -507,7 +507,7 @@ def contains(I, item, cont):
             I.raise_(TypeError("'in <string>' requires string as left operand"))
         return str_contains(I, cont, item)
     if isinstance(cont, (list, tuple)):
-        if isinstance(item, SYM) or contains_sym(cont, depth=2):
+        if isinstance(item, SYM) or contains_sym(item, depth=3) or contains_sym(cont, depth=3):
             parts = []
             for x in cont:
                 e = I.eq(item, x)
@@ -1977,6 +1977,37 @@ def _re_split(I, args, kwargs):
         prev = p + 1
     parts.append(mk([a.slice(prev, a.n)]))
     return parts
+
+
+import itertools as _itertools
+
+
+@func_model(_itertools.chain)
+def _chain(I, args, kwargs):
+    out = []
+    for a in args:
+        out.extend(iterate(I, a))
+    return iter(out)
+
+
+@func_model(_itertools.chain.from_iterable)
+def _chain_from_iterable(I, args, kwargs):
+    out = []
+    for a in iterate(I, args[0]):
+        out.extend(iterate(I, a))
+    return iter(out)
+
+
+@func_model(_itertools.islice)
+def _islice(I, args, kwargs):
+    if contains_sym(list(args[1:])):
+        I.unsupported("islice with symbolic bounds")
+    return iter(list(_itertools.islice(list(iterate(I, args[0])), *args[1:])))
+
+
+@func_model(_itertools.product)
+def _product(I, args, kwargs):
+    return iter(list(_itertools.product(*[list(iterate(I, a)) for a in args], **kwargs)))
 
 
 # six helpers are plain Python outside the interpreted roots; they only re-export dict views
